@@ -142,9 +142,14 @@ Fixpoint best_edge (ai aj gi gj Qii Qij Qjj : A) (cands : list (A * A)) (mg : A)
     else best_edge ai aj gi gj Qii Qij Qjj r mg cur
   end.
 
+(* std::min(std::max(x,L),U) *)
+Definition clampA (x L U : A) : A := minA (maxA x L) U.
+
+(* since /repo commit bc5f2886: "EdgeSolution best = {clamp(alphai), clamp(alphaj)}" - the current point is
+   kept when no edge candidate has positive gain (before: solution[0] was taken regardless) *)
 Definition solve_2d_edges (ai aj gi gj Qii Qij Qjj Li Ui Lj Uj : A) : A * A :=
   let es := edges2d ai aj gi gj Qii Qij Qjj Li Ui Lj Uj in
-  best_edge ai aj gi gj Qii Qij Qjj es zero (hd (ai, aj) es).
+  best_edge ai aj gi gj Qii Qij Qjj es zero (clampA ai Li Ui, clampA aj Lj Uj).
 
 Definition solve_2d (ai aj gi gj Qii Qij Qjj Li Ui Lj Uj : A) : A * A :=
   let det := sub (mul Qii Qjj) (mul Qij Qij) in
@@ -152,7 +157,8 @@ Definition solve_2d (ai aj gi gj Qii Qij Qjj Li Ui Lj Uj : A) : A * A :=
   let muj := div (sub (mul Qii gj) (mul Qij gi)) det in
   let oi := add ai mui in
   let oj := add aj muj in
-  if ltb thr det && (ltb Li oi && ltb Lj oj && ltb oi Ui && ltb oj Uj) then (oi, oj)
+  (* since /repo commit bc5f2886 the rank test is relative: detQ > 1.e-12 * Qii * Qjj *)
+  if ltb (mul (mul thr Qii) Qjj) det && (ltb Li oi && ltb Lj oj && ltb oi Ui && ltb oj Uj) then (oi, oj)
   else solve_2d_edges ai aj gi gj Qii Qij Qjj Li Ui Lj Uj.
 
 (* ---------------- BoxConstrainedProblem::updateSMO ---------------- *)
@@ -303,7 +309,7 @@ Arguments unshr {A}. Arguments mk {A}.
 Arguments K {A}. Arguments diag {A}. Arguments deact {A}. Arguments bmin {A}. Arguments bmax {A}.
 Arguments maxA {A}. Arguments minA {A}. Arguments set_flags {A}. Arguments with_alpha_grad {A}.
 Arguments smo_new {A}. Arguments svm_update {A}. Arguments solve_edge {A}. Arguments gain2 {A}.
-Arguments edges2d {A}. Arguments best_edge {A}. Arguments solve_2d_edges {A}. Arguments solve_2d {A}.
+Arguments clampA {A}. Arguments edges2d {A}. Arguments best_edge {A}. Arguments solve_2d_edges {A}. Arguments solve_2d {A}.
 Arguments box_update {A}. Arguments edge_update {A}. Arguments smo_step {A}. Arguments largest_up {A}.
 Arguments smallest_down {A}. Arguments test_shrink {A}. Arguments flip {A}. Arguments set_active {A}.
 Arguments unshrink_val {A}. Arguments unshrink {A}. Arguments shrink_loop {A}. Arguments shrink {A}.
